@@ -224,6 +224,8 @@ pub mod sync {
     impl<'a, T: ?Sized> std::ops::DerefMut for MutexGuard<'a, T> { fn deref_mut(&mut self) -> &mut T { unsafe { &mut *self.m.data.get() } } }
     impl<'a, T: ?Sized> Drop for MutexGuard<'a, T> {
         fn drop(&mut self) {
+            // unlocking a Mutex<bool> is a scheduling point (same rule as the model: such mutexes are try_locked elsewhere)
+            if std::any::type_name::<T>() == "bool" && !std::thread::panicking() { gate("mutex_unlock", |_| true); }
             if std::thread::panicking() { self.m.poisoned.store(true, Ordering::SeqCst); }
             self.m.locked.store(false, Ordering::SeqCst);
         }
@@ -237,7 +239,8 @@ pub mod sync {
             let me = super::me();
             gate("Condvar::wait", |_| true);
             let m = guard.m;
-            drop(guard);
+            std::mem::forget(guard);                       // the release is part of the wait, not a separate unlock step
+            m.locked.store(false, Ordering::SeqCst);
             self.sleepers.lock().unwrap().push((me, false));
             gate("Condvar::wait", |_| { self.sleepers.lock().unwrap().iter().any(|&(t, n)| t == me && n) && !m.locked.load(Ordering::SeqCst) });
             self.sleepers.lock().unwrap().retain(|&(t, _)| t != me);
